@@ -31,7 +31,7 @@ TRUSTED = ['Coq 8.16.1 kernel + vm_compute (complete sweeps of the finite domain
            'harness/src/c18.rs and the python oracle of the search stage']
 UNMODELLED = ['callers of the codec (bin/xbin/avatar/idf/adf readers and writers, pcboard/avatar parsers): C04-C07, C15',
               'attribute flags other than bold and blink (not representable in the 8-bit byte; as_u8 ignores them, from_u8 never sets them: proved/tied)',
-              'convert_from_unicode of PETSCII beyond U+0FFF is compared on sampled characters only (it converts the low byte of every char)']
+              'in the quick tier convert_from_unicode/convert_to_unicode of PETSCII beyond U+0FFF are compared on sampled characters only (they convert the low byte of every char); the thorough tier sweeps the whole char domain']
 ASSUMPTIONS = ['Rust u8/u16/u32 operators behave as written into the model: `!flag` on u16 is xor 0xFFFF, `as u8` is mod 256, `char as u8` keeps the low byte',
                'a `char` is identified with its scalar value; HashMap<char,char>::insert overwrites an existing key']
 RULE = ('no sampling for the domains the property quantifies over: all 256 bytes x 3 modes, the full 16x16 colour grid x bold x blink x 3 modes '
@@ -121,7 +121,7 @@ def corr_cases(ctx):
             cs.append(('convnonid %s to 0' % name, 'run_nonid_range %d 0 0 256' % k,
                        'convert_to_unicode %s: non-identity set over all chars' % name, 'pairs'))
         else:
-            hi = ctx.n(0x1000, 0x8000)
+            hi = ctx.n(0x1000, 0x110000)
             for lo in range(0, hi, 0x1000):
                 cs.append(('convnonid petscii from %d %d' % (lo, lo + 0x1000), 'run_nonid_range 2 1 %d %d' % (lo, lo + 0x1000),
                            'convert_from_unicode petscii: non-identity set on %#x..' % lo, 'pairs'))
@@ -232,6 +232,7 @@ def search_cases():
         for blink in (0, 1):
             for bold in (0, 1):
                 cs.append('attrencdec %d %d %d' % (m, blink, bold))
+    cs.append('fromcolorrt')
     cs += ['cprt cp437', 'cprt atascii']
     for name in CONVS:
         cs.append('typed %s %s' % (name, ' '.join(map(str, TYPED))))
@@ -268,6 +269,13 @@ def check_case(case, r):
                                   'impl': got, 'expected': want,
                                   'detail': 'attribute fg %d bg %d blink %d bold %d encoded and decoded in %s shows [fg,bg,blink] = %r' % (fg, bg, blink, bold, MODES[m], got)})
         return n, fails
+    if kind == 'fromcolorrt':
+        for i in range(1, len(v) - 2, 3):
+            fg, bg, got = v[i:i + 3]
+            want = (fg & 15) | ((bg & 15) << 4)
+            fails.append({'signature': 'from_color-byte-mismatch', 'input': {'case': case, 'fg': fg, 'bg': bg}, 'impl': got, 'expected': want,
+                          'detail': 'from_color(%d, %d).as_u8(Blink) = %#04x, expected %#04x (%d mismatches in all)' % (fg, bg, got, want, v[0])})
+        return 65536, fails
     if kind == 'cprt':
         n = 256 if p[1] == 'cp437' else 128
         for c in range(n):
